@@ -855,7 +855,7 @@ def check_package(ctx, gen, root, st, dy, a, b):
             if gen.twin_module and path.startswith(gen.pkg + ".core"):
                 return      # F4 (module variant) clobbers this module's inspected tree; the direct comparison reports it
             if norm_member(out[1]) != enc_member_impl(da):
-                ctx.tie_failure("correspondence", "inspect_child(model) vs griffe inspected member", {"model": out[1], "impl": enc_member_impl(da)}, {"path": path, "form": form})
+                ctx.tie_failure("correspondence", "inspect_child(model) vs griffe inspected member", {"model": out[1], "impl": enc_member_impl(da)}, {"path": path, "form": form, "pkg": gen.pkg, "files": gen.files})
             ctx.observe("inspect_child", out[1][0] if out[1][0] != "obj" else out[1][1])
         ask(["child", prims, env, cur.split("."), name, has_file], cb_child)
 
